@@ -35,8 +35,9 @@ def compose_models(models_map: Dict[str, ModelMeta]) -> ModelsStructureType:
             parents = {ptr.parent.index for ptr in pointers}
             struct = structure_hash_table[key]
             # Model is using by other models
-            if has_root_pointers or len(parents) > 1 and len(struct["roots"]) > 1:
+            if has_root_pointers or len(parents) > 1 and len(struct["roots"]) != 1:
                 # Model is using by different root models
+                # (or by several models none of which leads to a root level model, i.e. a cycle through the root model)
                 try:
                     root_models.insert_before(
                         struct,
